@@ -46,8 +46,8 @@ fn merge_rules() -> Vec<Rewrite> { vec![
 #[rustfmt::skip]
 pub fn predicate_pushdown_rules() -> Vec<Rewrite> { vec![
     pushdown("filter", "?cond", "order", "?keys"),
-    pushdown("filter", "?cond", "limit", "?limit ?offset"),
-    pushdown("filter", "?cond", "topn", "?limit ?offset ?keys"),
+    // (a filter must not be pushed below LIMIT / top-N: filtering the first n rows is not the same as
+    // taking the first n of the filtered rows)
     rw!("pushdown-filter-proj";
         "(filter ?cond (proj ?proj ?child))" =>
         "(proj ?proj (filter ?cond ?child))"
